@@ -54,3 +54,46 @@ def programs(seed, n, syms=gen.SYMS, tids=None):
         steps.append(rel("same", "C10.norm.order_independent", "o1", "o2"))
         progs.append({"tid": tids(), "inputs": {"x": x}, "steps": steps})
     return progs
+
+
+def product_programs(seed, n, syms=gen.SYMS, tids=None):
+    """Conjugates of PRODUCTS: y = x . b carries the labels of both factors (two labels when both are odd); conj and
+    dagger of y for both settings of the dual-leg option, <y|y> in both orders, and (x.b)* against x* . b*."""
+    from .contract import partner_for
+
+    tids = tids or gen.Tids()
+    progs = []
+    for i in range(n):
+        rng = gen.rng_for(seed, "conjprod", i)
+        sym = syms[i % len(syms)]
+        rank = rng.randint(1, 3)
+        allket = rng.random() < 0.5
+        ixs = [gen.rand_index(rng, sym, dual=False if allket else None) for _ in range(rank)]
+        x = gen.rand_array(rng, sym, rank, "fermionic", ixs=ixs, dtype=rng.choice(["float64", "complex128"]), sparse=0.3,
+                           phases=0.3, oddpos=2, parity=1 if rng.random() < 0.8 else None)
+        x["fill"]["mod"] = 5
+        b, axes_a, axes_b = partner_for(rng, x, 1, rng.randint(1, 2), "fermionic", oddpos=6, phases=0.3, sparse=0.3,
+                                        parity=1 if rng.random() < 0.8 else None)
+        b["fill"]["mod"] = 5
+        steps = [{"op": "tensordot", "in": ["x", "b"], "out": ["y"],
+                  "args": {"axes": [list(axes_a), list(axes_b)], "preserve_array": True, "mode": rng.choice(["auto", "blockwise"])},
+                  "entry": "symmray"}]
+        ry = rank - 1 + len(b["ix"]) - 1
+        allax = list(range(ry))
+        yket = all(not x["ix"][k]["dual"] for k in range(rank) if k not in axes_a) and \
+            all(not b["ix"][k]["dual"] for k in range(len(b["ix"])) if k not in axes_b)
+        for pd in (False, True):
+            t = int(pd)
+            steps.append({"op": "conj", "in": ["y"], "out": [f"yc{t}"], "args": {"phase_dual": pd}})
+            steps.append({"op": "dagger", "in": ["y"], "out": [f"yd{t}"], "args": {"phase_dual": pd}})
+            steps.append({"op": "transpose", "in": [f"yc{t}"], "out": [f"ycT{t}"], "args": {"axes_none": True}})
+            steps.append(rel("same", "C10.dagger_is_conj_reversed.product", f"yd{t}", f"ycT{t}"))
+            if pd or yket:
+                for order, name in ((["c", "y"], "cy"), (["y", "c"], "yc")):
+                    ins = [f"yc{t}" if o == "c" else "y" for o in order]
+                    steps.append({"op": "tensordot", "in": ins, "out": [f"n{name}{t}"], "args": {"axes": [allax, allax]}, "entry": "symmray"})
+                    steps.append(rel("norm2", "C10.norm.product." + name, f"n{name}{t}", "y"))
+        steps.append({"op": "conj", "in": ["yc0"], "out": ["ycc"], "args": {}})
+        steps.append(rel("same", "C10.conj_twice.product", "y", "ycc"))
+        progs.append({"tid": tids(), "inputs": {"x": x, "b": b}, "steps": steps})
+    return progs
